@@ -126,6 +126,52 @@ def check_class(fx, R, cq):
             decls.get('cellCentersPositionAlongAxis') == ('[]', 'this.cellCentersPositionAlongAxes_', 'dim') and decls.get('numberOfCellsAlongAxis') == ('[]', 'this.numberOfCellsAlongAxes_', 'dim')
         if table_ok is not None:
             table_ok = table_ok and alias_ok
+    # every axis gets its table from the closed-form fill: no other writer of the table, no way round the fill loop
+    if len(inner) == 1 and table_ok:
+        outer = [L for L in loops if L is not inner[0] and any(y is inner[0] for y in walk(L['b']))]
+        other_writes, jumps = [], []
+        if len(outer) == 1:
+            def scan(node, in_inner):
+                if node is inner[0]:
+                    return
+                k = node.get('k')
+                if k in ('Continue', 'Break', 'Return'):
+                    jumps.append(k)
+                if k == 'Expr':
+                    t = deep_unwrap(sx(node['e']))
+                    if isinstance(t, tuple) and t and t[0] in ('=', '+=', '-=', '*=', '.swap', '.assign', '.push_back', '.insert') and len(t) > 1:
+                        root = t[1]
+                        while isinstance(root, tuple) and len(root) > 1:
+                            root = root[1]
+                        if root in ('cellCentersPositionAlongAxis', 'this.cellCentersPositionAlongAxes_'):
+                            other_writes.append(t)
+                from ..tree import children
+                for ch in children(node):
+                    scan(ch, in_inner)
+            scan(outer[0]['b'], False)
+            oh = outer[0].get('init')
+            ov = oh['vars'][0] if oh and oh['k'] == 'Decl' and len(oh['vars']) == 1 else None
+            outer_full = ov is not None and const_value(ov.get('init')) == 0 and (lambda c_: isinstance(c_, tuple) and len(c_) == 3 and c_[0] == '<' and c_[1] == ov['name'] and (c_[2] == 'DIM' or c_[2] == int(cq.rstrip('>').split(',')[-1])))(deep_unwrap(sx(outer[0]['c']))) and deep_unwrap(sx(outer[0]['inc'])) in (('u++', ov['name']), ('++u', ov['name']))
+        else:
+            outer_full = None
+        if other_writes:
+            foreign = [w for w in other_writes if 'cellCentersPositionAlongAxes_' in str(w[2:]) or 'dim' in str(w[2:])]
+            if foreign:
+                R.violated('X1', 'GridIndexMapping:centre-table:foreign-axis', 'on some path the centre table of an axis is written from `%s` instead of the closed form of its own origin: the index map '
+                           'uses the origin of the axis itself, so for axes with different lower bounds centres and indexes disagree [%s]' % (foreign[0][2:], cname), loc, 'E-STATE')
+            else:
+                R.undecided('X1', cname + ':centre-table:writers', 'the table has a second writer: %s' % (other_writes[0],))
+            table_ok = None
+        elif jumps:
+            R.undecided('X1', cname + ':centre-table:writers', 'the per-axis loop can leave or skip the closed-form fill (%s)' % jumps)
+            table_ok = None
+        elif not outer_full:
+            R.undecided('X1', cname + ':centre-table:writers', 'the per-axis loop is not `for dim in [0, DIM)`')
+            table_ok = None
+        else:
+            R.holds('X1', cname + ':centre-table:writers', 'the closed-form fill is the only writer of the table and runs for every axis', loc, 'E-STATE')
+        if table_ok is None:
+            table_ok = 'skip'
     if acc_violation is not None:
         eps = {'float': 5.96e-8, 'double': 1.11e-16}.get(scalar, 1e-16)
         drift = 1e7 * eps * 1e3
@@ -135,9 +181,11 @@ def check_class(fx, R, cq):
                        'index (the index map uses the closed form) and the last cell no longer covers the bound [%s]' % (acc_violation, scalar, drift, cname), loc, 'E-STATE')
         else:
             R.holds('X2', cname + ':centre-table:accumulated', 'accumulated in %s: drift bound %.3g below half the smallest resolution' % (scalar, drift), loc, 'E-STATE')
-    elif table_ok:
+    elif table_ok is True:
         R.holds('X2', cname + ':centre-table:closed-form', 'entry n is origin + (n + 1/2) res, computed from n alone', loc, 'E-STATE')
         R.holds('X1', cname + ':centre-table', 'centre(n) = origin + (n+1/2) res over n in [0, N)', loc, 'E-ALG')
+    elif table_ok == 'skip':
+        pass
     elif table_ok is False:
         R.violated('X1', 'GridIndexMapping:centre-table', 'table entry is not origin + (n + 1/2) res over all n in [0, N) [%s]' % cname, loc, 'E-ALG')
     else:
